@@ -17,7 +17,15 @@ SPEC = {
     'RuleKind': {'Override': 'override', 'Underride': 'underride', 'Sender': 'sender', 'Room': 'room', 'Content': 'content'},
     'PusherKind': None,
     # receipts
-    'ReceiptType': {'Read': 'm.read', 'ReadPrivate': 'm.read.private', 'FullyRead': 'm.fully_read'},
+    'ReceiptType': {'Read': 'm.read', 'ReadPrivate': 'm.read.private'},
+    'PredefinedOverrideRuleId': {'Master': '.m.rule.master', 'SuppressNotices': '.m.rule.suppress_notices', 'InviteForMe': '.m.rule.invite_for_me',
+                                 'MemberEvent': '.m.rule.member_event', 'IsUserMention': '.m.rule.is_user_mention',
+                                 'ContainsDisplayName': '.m.rule.contains_display_name', 'IsRoomMention': '.m.rule.is_room_mention',
+                                 'RoomNotif': '.m.rule.roomnotif', 'Tombstone': '.m.rule.tombstone', 'Reaction': '.m.rule.reaction',
+                                 'RoomServerAcl': '.m.rule.room.server_acl', 'SuppressEdits': '.m.rule.suppress_edits'},
+    'PredefinedUnderrideRuleId': {'Call': '.m.rule.call', 'EncryptedRoomOneToOne': '.m.rule.encrypted_room_one_to_one',
+                                  'RoomOneToOne': '.m.rule.room_one_to_one', 'Message': '.m.rule.message', 'Encrypted': '.m.rule.encrypted'},
+    'PredefinedContentRuleId': {'ContainsUserName': '.m.rule.contains_user_name'},
     # crypto algorithms
     'DeviceKeyAlgorithm': {'Ed25519': 'ed25519', 'Curve25519': 'curve25519'},
     'SigningKeyAlgorithm': {'Ed25519': 'ed25519'},
